@@ -169,7 +169,7 @@ func replayWitness(repo, hdir string, names []string, wpath string, v *Violation
 	if v.Kind == "race" {
 		// data races are confirmed by Go's own race detector on the replayed schedule
 		args = append(args, "-race")
-		env = append(env, "CGO_ENABLED=1")
+		env = append(env, "CGO_ENABLED=1", "VF_FREERUN=1")
 	}
 	args = append(args, ".")
 	cmd := exec.CommandContext(ctx, "go", args...)
